@@ -380,6 +380,25 @@ def saveDfs (s : State) : Nat → List Nat → Nat → List Nat
                 else (s.refsOf o).foldl (fun a p => if s.kindAt p = some .insert then saveDfs s f a p else a) acc
     if acc'.contains o then acc' else acc' ++ [o]
 
+/-- `obj.flush()` whose after_* hooks may query: `cache.call_after_save_hooks()` runs outside `flush_disabled()`, so a query flushes
+    the whole cache (`nested`) -/
+def entityFlushN (nested : State → Except Err State) (H : Hooks) (princ : State → Nat → List Nat) (saveList : State → Nat → List Nat)
+    (bfuel : Nat) (s : State) (o : Nat) : Except Err State :=
+  match s.kindAt o with
+  | none => .ok s
+  | some _ =>
+    match entityBeforeLoop H princ bfuel 0 [o] s with
+    | .error e => .error e
+    | .ok (s1, _) =>
+      let l := saveList s1 o
+      match saveAll l s1 with
+      | .error e => .error e
+      | .ok s2 => afterLoopA nested H s2.saved { s2 with queue := clearSlots s2.queue l, saved := [] }
+
+/-- obj.flush() with the references as state and recursive flushes from queries inside its after_* hooks -/
+def entityFlushRefsN (H : Hooks) (ord : State → List Nat → List Nat) (bfuel depth : Nat) (s : State) (o : Nat) : Except Err State :=
+  entityFlushN (flushN H ord bfuel depth) H (fun st p => st.refsOf p) (fun st p => saveDfs st (st.objs.length + 1) [] p) bfuel s o
+
 def entityFlushRefs (H : Hooks) (bfuel : Nat) (s : State) (o : Nat) : Except Err State :=
   entityFlush H (fun st p => st.refsOf p) (fun st p => saveDfs st (st.objs.length + 1) [] p) bfuel s o
 
